@@ -29,4 +29,6 @@ def obligations(tier, seed):
     p["rows"].quick_grid = [dict(MAGN=1, PKTN=k) for k in (25, 29, 30, 31)]      # X/26 continuity (PKTN=26), X/27, X/28: no verdict inside the quick budget (thorough, 12 GB cap)
     p["rows"].mem_gb = 12; p["pop"].mem_gb = 12; p["x27"].timeout = 2400
     p["addr_error"].tier = "thorough"; p["addr_error"].timeout = 1500; p["addr_error"].mem_gb = 12
-    return prim + [p[k] for k in ("pagelink", "pagelink_any", "mot", "pop", "x27", "ait", "lop_parity", "lop_parity_x26", "header", "header_badpage", "header_timefill", "addr_error", "rows")]
+    from vlib.props._asm import asm_obs
+    asm = [o for o in asm_obs() if o.name in ("asm_header_pageno_error", "asm_x26_triplet_error")]    # containment through the dispatcher with pages in progress
+    return prim + [p[k] for k in ("pagelink", "pagelink_any", "mot", "pop", "x27", "ait", "lop_parity", "lop_parity_x26", "header", "header_badpage", "header_timefill", "addr_error", "rows")] + asm
